@@ -82,5 +82,18 @@ PROPS["C19"] = dict(
          "log with reset/delete/separator keys; distinct = distinct input term (fuzz: distinct observation)",
 )
 
+PROPS["C10"] = dict(
+    title="Every bundled store behaves as one append-only, resumable log",
+    theorems="Properties/C10.v",
+    proof_files=["Store/Lex.v", "Store/StoreModel.v", "Store/StoreProofs.v", "Properties/C10.v"],
+    suites=[dict(name="storemem", mod="core", family="storemem", corr="Corr.CorrStore", check="check10_mem", shard=50),
+            dict(name="storesqlitefile", mod="core", family="storesqlitefile", corr="Corr.CorrStore", check="check10_sq", shard=20,
+                 env={"VERIF_TMP": "/verif/.build/tmp"}),
+            dict(name="storesqlitemem", mod="core", family="storesqlitemem", corr="Corr.CorrStore", check="check10_sq", shard=20)],
+    level_text="TODO",
+    level_note="TODO",
+    rule="TODO",
+)
+
 NOT_CLAIMED = {p: "check not built yet in this session (work in progress; planned per DESIGN.md section 6)" for p in
                ["C%02d" % i for i in range(1, 21)]}
